@@ -78,6 +78,8 @@ def defaults(ctx):
         return False
 
     atoms = [('_A == _B', cmp_lit), ('_A in _L', in_lits),
+             ('_A != _B', lambda e, s, tr: (None if cmp_lit(e, s, tr) is None else not cmp_lit(e, s, tr))),
+             ('_A not in _L', lambda e, s, tr: (None if in_lits(e, s, tr) is None else not in_lits(e, s, tr))),
              ('self.metamodel', lambda e, s, tr: s['has_mm']),
              ('self.metamodel is not None', lambda e, s, tr: s['has_mm']),
              ('self.metamodel is None', lambda e, s, tr: not s['has_mm'])]
